@@ -31,6 +31,9 @@ REQUIRED_THEOREMS = [
     "all_finalized", "corner_scheduled_time_at_t_end_missed", "extra_frame_not_at_final_time",
     "frame_count_whole_range_sliver", "sliver_frame_on_whole_range",
     "adaptive_served_exactly_partial", "adaptive_served_exactly_run_partial", "adaptive_two_trackers_served_early",
+    "seq_window_invariant", "served_exactly_once_sequence", "first_call_at_t_start", "sched_fixed_seqLike",
+    "sched_log_seqLike", "sched_geom_seqLike", "fixed_list_served_exactly_once", "logarithmic_served_exactly_once",
+    "geometric_served_exactly_once",
 ]
 RULE = ("pairs of runs (stop-free, then with injected stop requests placed on calls of the stop-free trace) "
         "with 1-4 trackers (callback / StorageTracker+MemoryStorage / DataTracker; constant, fixed, logarithmic, "
